@@ -247,7 +247,11 @@ func numberOfBloomFilterBits(n uint, r float64) uint {
 }
 
 func numberOfBloomFilterHashFunctions(s uint, n uint) uint {
-	return uint(math.Round(float64(s) / float64(n) * math.Log(2)))
+	k := uint(math.Round(float64(s) / float64(n) * math.Log(2)))
+	if k == 0 {
+		k = 1 // a filter without hash functions stores nothing: every added item would be a false negative
+	}
+	return k
 }
 
 func (c *bloomFilter) Add(ctx context.Context, key string) error {
